@@ -156,7 +156,19 @@ Global Hint Resolve st_create_node : pres_st.
 Lemma st_create_bind l f : pres Rst (create_bind l f). Proof. prim create_bind. Qed.
 Lemma st_resolve l o : pres Rst (resolve l o). Proof. prim resolve. Qed.
 Global Hint Resolve st_create_bind st_resolve : pres_st.
-Lemma st_instantiate v b r : pres Rst (instantiate v b r). Proof. prim instantiate. Qed.
+Lemma st_memo_new f : pres Rst (memo_new f). Proof. prim memo_new. Qed.
+Global Hint Resolve st_memo_new : pres_st.
+Lemma st_memo_lookup mm k : pres Rst (memo_lookup mm k). Proof. prim memo_lookup. Qed.
+Lemma st_memo_store m k n : pres Rst (memo_store m k n). Proof. prim memo_store. Qed.
+Lemma st_within_scope {A} sc (f : M A) : pres Rst f -> pres Rst (within_scope sc f). Proof. intros; unfold within_scope; go_st. Qed.
+Global Hint Resolve st_memo_lookup st_memo_store : pres_st.
+Global Hint Extern 1 (pres Rst (within_scope _ _)) => (apply st_within_scope; go_st) : pres_st.
+Lemma st_instantiate_memo fuel :
+  (forall v b r, pres Rst (instantiate fuel v b r)) /\ (forall m k, pres Rst (memo_call fuel m k)).
+Proof. induction fuel as [|f [IH1 IH2]]; (split; intros; simpl; go_st). Qed.
+Lemma st_instantiate fuel v b r : pres Rst (instantiate fuel v b r). Proof. apply st_instantiate_memo. Qed.
+Lemma st_memo_call fuel m k : pres Rst (memo_call fuel m k). Proof. apply st_instantiate_memo. Qed.
+Global Hint Resolve st_memo_call : pres_st.
 Lemma st_unwrap_value n s : pres Rst (unwrap_value n s). Proof. prim unwrap_value. Qed.
 Global Hint Resolve st_instantiate st_unwrap_value : pres_st.
 Lemma st_copy_child_bindrhs fuel n c : pres Rst (copy_child_bindrhs fuel n c). Proof. prim copy_child_bindrhs. Qed.
